@@ -100,6 +100,11 @@ CLAIMED = {
  "C08": dict(engine="lean+tables+facts+cli", technique=T_IND,
    text="Lean 4 theorems that error values are 10,11,12,... in ancestor-first declaration order, unique, that the k-th error has value 10+k and that a derived interface re-exports its base's errors at the same positions; tied to the code as for C07; emitted constants of all four backends extracted and compared with an oracle computed from the declarations.",
    note=TB),
+ "C18": dict(engine="lean+java bench+facts", technique="Lean 4 proof (partition lengths of the reference encoder equal the counts; round trip of the reference encoder) + differential correspondence: generated Java Proxy/MinkObject executed (javac/java) against the reference encoder and the real counts",
+   text="Partial: the Java generator's text is not modelled; what is proved is about the reference encoder the Java arrays are compared with. Lean 4: for every parameter list without small object-bearing structs, the reference encoding has exactly counts.bi input buffers, counts.bo output buffers, counts.oi input objects and counts.oo output objects (java_partition_lengths, via counts_eq_sections: the counts word equals the class histogram of the slot sections), and decoding the encoding returns the caller's values (C01.decode_encode). "
+        "Tie: generated accepted methods over the constructs the Java backend handles are emitted by the real idlc --java, compiled with javac against a minimal stand-in of the Mink Java runtime API, and driven Proxy -> recording copying transport -> MinkObject -> scripted implementation; per call the lengths of bi/boSizes/oi/oo are compared with the counts of the real C-family pipeline, every bi/bo byte string and oi/oo token list with the Lean reference encoder, delivered inputs and returned outputs/status with the caller's. "
+        "Seven constructs inside the property's quantifier on which the generated Java fails (primitive arrays other than byte input, struct arrays, nested struct input, fixed-array struct members, a second out bundle) are known findings, each re-confirmed by a witness on every run.",
+   note="Trusted: javac/java 17, the stand-in runtime API under bench/java-runtime (IMinkObject, JMinkObject, MinkProxy: only the members the generated code refers to), the bench's generated Java driver. " + TB),
 }
 
 PENDING_REASON = "check under construction in this session; will be claimed when theorem file, tie and evidence exist"
